@@ -810,7 +810,8 @@ struct SmallSetEngine : EngineBase {
           if (my < from || my >= to) continue;
           begin_history(0, my, 0x56);
           SetBox<E, SetA> a, b;
-          if (!build(a, cmpA, pa.second) || !build(b, cmpA, pb.second)) { ++n_cut; next = my + 1; return; }
+          // the second operand's comparator object is in another state where the comparator type has state (cmpA is variant 0)
+          if (!build(a, cmpA, pa.second) || !build(b, CmpVariant<CmpA>::make(1), pb.second)) { ++n_cut; next = my + 1; return; }
           if (what == 2) do_merge(a, b, true);
           else do_pair(a, b, what, true);
           if (g_cut) { ++n_cut; next = my + 1; return; }
@@ -895,7 +896,7 @@ struct SmallSetEngine : EngineBase {
     SetBox<E, SetA> A[3];
     SetBox<E, SetB> B;
     set_op("ctor(comp)", "-", "-", "pool");
-    for (int i = 0; i < 3; ++i) make(A[i], cmpA);
+    for (int i = 0; i < 3; ++i) make(A[i], CmpVariant<CmpA>::make(i));  // comparator objects in different states where the type has state
     make(B, cmpB);
     // steering: phases that fill beyond N, drain to empty, refill
     for (int i = 0; i < nops && !g_cut; ++i) {
